@@ -29,6 +29,7 @@ package main
 // every TTL (300+g). The databases are built once per run and backend; every op gets fresh handlers.
 
 import (
+	"sort"
 	"bufio"
 	"fmt"
 	"net"
@@ -690,7 +691,24 @@ func c12sched(backend string, evs []string) (string, string) {
 			completed(fl, resp, false)
 		}
 	}
-	return strings.Join(out, ","), verdict
+	// the keys the real cache holds now (every query has finished): the model's cache must hold the
+	// same byte strings - this is the tie of Cache.cacheKey to the key the code really builds
+	keys := "?"
+	allDone := true
+	for _, fl := range parkedOrder {
+		if !fl.released {
+			allDone = false
+		}
+	}
+	if allDone {
+		var ks []string
+		for _, k := range C.CacheKeysForVerif() {
+			ks = append(ks, hexTok([]byte(k)))
+		}
+		sort.Strings(ks)
+		keys = strings.Join(ks, "+")
+	}
+	return strings.Join(out, ",") + "|keys=" + keys, verdict
 }
 
 // c12applyDiff publishes generation b at a RocksDB path holding generation a (the primary's update
